@@ -22,6 +22,9 @@ func init() {
 			"(parse.NewInput adopts that array and every minifier rewrites its input in place) — SSA provenance of the reader argument; (R10.2) each documented resource limit is in force: the limit comparison exists, its exceeded outcome leaves the function without doing work, and the guarded (recursive / quadratic) region is dominated by the within-limit outcome; the CSS nesting counter is incremented before and decremented after the recursive region on all paths.",
 		Run: runC10,
 	})
+	mutant(&Mutant{Name: "c10-viewbox-cursor-not-compared-with-length", Property: "C10", File: "svg/svg.go",
+		Old: "if j >= len(val) || val[j] != ' ' && val[j] != ',' {", New: "if val[j] != ' ' && val[j] != ',' {",
+		Rule: "R10.11", Construct: "val[j]"})
 	mutant(&Mutant{Name: "c10-local-string-stripped-without-length-test", Property: "C10", File: "css/css.go",
 		Old: "if fun == Local && 1 < len(data) && (data[0] == '\\'' || data[0] == '\"') {", New: "if fun == Local && (data[0] == '\\'' || data[0] == '\"') {",
 		Rule: "R10.9", Construct: "has both delimiters"})
@@ -76,6 +79,7 @@ func runC10(c *Ctx) {
 	c.r106()
 	c.r108()
 	c.r109()
+	c.r1011()
 	// a look-ahead past the end of the input must not index past the token buffer (clause (e) of the token buffer rules)
 	c.alsoUnder(map[string]string{"R03.5": "R10.10", "R05.12": "R10.10", "R06.8": "R10.10"}, func(construct string) bool {
 		return strings.Contains(construct, "index clamped") || strings.Contains(construct, "early ends of the read loop")
@@ -277,6 +281,36 @@ func (c *Ctx) r103() {
 					}
 					if bestTest == nil {
 						continue // no stated belief
+					}
+					// len(v) ≥ L together with len(v) ≠ L (the false outcome of `len(v) == L`, e.g. the right operand of
+					// `len(v) == L || v[L] == c`) gives len(v) ≥ L+1
+					for changed := true; changed; {
+						changed = false
+						for _, f := range facts {
+							if f.Test.Kind != flow.KCond {
+								continue
+							}
+							be, ok := ast.Unparen(f.Test.Expr).(*ast.BinaryExpr)
+							if !ok || (be.Op != token.EQL && be.Op != token.NEQ) {
+								continue
+							}
+							differs := be.Op == token.EQL && !f.Value || be.Op == token.NEQ && f.Value
+							if !differs {
+								continue
+							}
+							for _, pr := range [][2]ast.Expr{{be.X, be.Y}, {be.Y, be.X}} {
+								if call, isCall := ast.Unparen(pr[0]).(*ast.CallExpr); isCall && str(call.Fun) == "len" && len(call.Args) == 1 && nospace(str(call.Args[0])) == ac.v {
+									k, isK := intConst(info, pr[1])
+									if !isK {
+										k, isK = konst(pr[1])
+									}
+									if isK && k == best {
+										best++
+										changed = true
+									}
+								}
+							}
+						}
 					}
 					// an access inside the condition itself that established a bound is ordered by short-circuit: fine (dominance covers it)
 					judged++
